@@ -7,7 +7,7 @@ use std::path::Path;
 
 use serde_json::Value;
 
-use crate::engine::{Ctx, VERIF_DIR};
+use crate::engine::{verif_dir, Ctx};
 
 pub mod c01;
 pub mod c02;
@@ -188,7 +188,7 @@ pub fn replay_file(id: &str, path: &str) -> i32 {
 
 /// Replay every committed regression case of this property before any generation.
 pub fn replay_corpus(ctx: &Ctx) {
-    let dir = Path::new(VERIF_DIR).join("corpus").join(&ctx.id);
+    let dir = Path::new(&verif_dir()).join("corpus").join(&ctx.id);
     let mut files: Vec<_> = match std::fs::read_dir(&dir) {
         Ok(rd) => rd.filter_map(|e| e.ok()).map(|e| e.path()).filter(|p| p.extension().map(|x| x == "json").unwrap_or(false)).collect(),
         Err(_) => vec![],
